@@ -101,8 +101,9 @@ theorem natDigits_shape (n : Nat) : ∃ c tl, natDigits n = c :: tl ∧ Machine.
 /-! ## reading printed scalars -/
 
 omit hext in
-/-- what may follow a value inside the text of an array (or nothing, at top level) -/
-def SepOK (rest : Bytes) : Prop := rest = [] ∨ ∃ c tl, rest = c :: tl ∧ (c = 0x2c ∨ c = 0x5d ∨ c = 0x7d)
+/-- what may follow a value: a separator or closing bracket of the enclosing container, the closing quote of a map key
+    holding a number (`MapKey`'s numeric methods), or nothing (top level) -/
+def SepOK (rest : Bytes) : Prop := rest = [] ∨ ∃ c tl, rest = c :: tl ∧ (c = 0x2c ∨ c = 0x5d ∨ c = 0x7d ∨ c = 0x22)
 
 omit hext in
 theorem skipWs_cons {c : UInt8} (hc : Machine.isWs c = false) (tl : Bytes) (pos : Nat) : skipWs (c :: tl) pos = (c :: tl, pos) := by
@@ -160,7 +161,8 @@ theorem sep_facts {rest : Bytes} (h : SepOK rest) :
     (rest = [] ∨ ∃ c tl, rest = c :: tl ∧ (c == 0x2e) = false ∧ (c == 0x65 || c == 0x45) = false) := by
   rcases h with rfl | ⟨c, tl, rfl, hc⟩
   · exact ⟨.inl rfl, .inl rfl⟩
-  · rcases hc with rfl | rfl | rfl
+  · rcases hc with rfl | rfl | rfl | rfl
+    · exact ⟨.inr ⟨_, _, rfl, by decide⟩, .inr ⟨_, _, rfl, by decide, by decide⟩⟩
     · exact ⟨.inr ⟨_, _, rfl, by decide⟩, .inr ⟨_, _, rfl, by decide, by decide⟩⟩
     · exact ⟨.inr ⟨_, _, rfl, by decide⟩, .inr ⟨_, _, rfl, by decide, by decide⟩⟩
     · exact ⟨.inr ⟨_, _, rfl, by decide⟩, .inr ⟨_, _, rfl, by decide, by decide⟩⟩
